@@ -213,7 +213,7 @@ def make_lf(spec):
         lf.set_alignment(get_aln("a", tree.get_tip_names(), spec["length"], spec["aln_seed"]))
         return lf
     if spec.get("bins"):
-        sm = get_model(spec["model"], ordered_param="rate", distribution="gamma")
+        sm = get_model(spec["model"], ordered_param="rate", distribution=spec.get("dist", "gamma"))
         lf = sm.make_likelihood_function(tree, bins=int(spec["bins"]))
     else:
         lf = get_model(spec["model"]).make_likelihood_function(tree)
@@ -247,6 +247,14 @@ def pvalue(lf, par, cell):
     return float(lf.get_param_value(par, **kw))
 
 
+def hidden_partitions(lf):
+    """optimisable probability-vector inputs that are not user parameters (e.g. rate_partition of distribution='free')"""
+    from cogent3.recalculation.definition import PartitionDefn
+
+    names = set(lf.get_param_names())
+    return sorted(n for n, d in lf.defn_for.items() if isinstance(d, PartitionDefn) and n not in names)
+
+
 def param_table(lf, edges):
     """every parameter value of the function: scalars by (edge, bin), plus the probability vectors"""
     import numpy
@@ -261,6 +269,10 @@ def param_table(lf, edges):
             v = numpy.asarray(lf.get_param_value(par), dtype=float).ravel()
             for i, x in enumerate(v):
                 tab[f"{par}#{i}"] = float(x)
+    for par in hidden_partitions(lf):
+        v = numpy.asarray(lf.get_param_value(par), dtype=float).ravel()
+        for i, x in enumerate(v):
+            tab[f"{par}#{i}"] = float(x)
     return tab
 
 
@@ -271,14 +283,16 @@ def scope_tables(lf):
     for par, _, _ in scalar_params(lf):
         d = lf.defn_for[par]
         cells = []
+        stale = False
         for k in sorted(d.assignments):
             st = d.assignments[k]
-            assert d.uniq[d.index[k]] is st, "index/uniq out of date"
+            if d.uniq[d.index[k]] is not st:
+                stale = True            # a completed call left assignments that the index does not know about
             const = bool(st.is_constant)
             cells.append([list(k), int(d.index[k]), const, None if const else float(st.lower), float(st.value),
                           None if const else float(st.upper), getattr(st, "_serial", None)])
         out[par] = dict(dims=list(d.valid_dimensions), indep_default=bool(d.independent_by_default), lower=float(d.lower),
-                        upper=float(d.upper), nfp=int(d.get_num_free_params()), cells=cells)
+                        upper=float(d.upper), nfp=int(d.get_num_free_params()), cells=cells, stale=stale)
     return out
 
 
@@ -341,14 +355,19 @@ def apply_setting(lf, s):
             kw.update(value=s["value"], is_constant=True)
         else:
             kw.update(init=s["value"], is_independent=bool(s.get("indep")))
+            if s.get("lower") is not None:
+                kw["lower"] = s["lower"]
+            if s.get("upper") is not None:
+                kw["upper"] = s["upper"]
         lf.set_param_rule(s["par"], **kw)
 
 
 class Settings:
     """the FINAL settings a history leaves behind, tracked by the harness itself (not read from the
     function under test, except the values an optimiser session left): per parameter and cell
-    (edge, bin): [group id, value, is_constant] — cells with the same group id share one parameter;
-    group ids are handed out chronologically."""
+    (edge, bin): [group id, value, is_constant, lower, upper] — cells with the same group id share one
+    parameter; group ids are handed out chronologically.  A rule one of whose scopes ends up with
+    lower > upper is REJECTED as a whole and leaves no trace."""
 
     def __init__(self, spec):
         lf = make_lf(spec)
@@ -358,43 +377,64 @@ class Settings:
         self.bounds = {}
         for par, has_edge, has_bin in scalar_params(lf):
             self.par[par] = {}
-            self.bounds[par] = (float(lf.defn_for[par].lower), float(lf.defn_for[par].upper))
+            lo, hi = float(lf.defn_for[par].lower), float(lf.defn_for[par].upper)
+            self.bounds[par] = (lo, hi)
             shared = self._new()
             for c in cells_of(lf, self.edges, has_edge, has_bin):
                 g = self._new() if par == "length" else shared
-                self.par[par][c] = [g, pvalue(lf, par, c), False]
+                self.par[par][c] = [g, pvalue(lf, par, c), False, lo, hi]
         self.touched = set()
         self.other = {}
+        self.hidden = {}
 
     def _new(self):
         self.gid += 1
         return self.gid
 
     def track(self, s):
+        """returns False when the rule must be rejected (ValueError: upper < lower)"""
         if s["what"] != "par":
             self.other[s["what"]] = s
-            return
+            return True
         par = s["par"]
         assert par in self.par, par
-        self.touched.add(par)
         E, B = s.get("edges"), s.get("bins")
         sel = [c for c in self.par[par] if (not E or c[0] in E) and (not B or c[1] in B)]
-        g = self._new()
-        lo, hi = self.bounds[par]
-        v = s["value"] if s.get("const") else min(max(s["value"], lo), hi)     # a free value is clipped to the bounds
-        for c in sel:
-            if s.get("const"):
-                self.par[par][c] = [self._new(), v, True]
-            elif s.get("indep"):
-                self.par[par][c] = [self._new(), v, False]
+        const = bool(s.get("const"))
+        groups = [[c] for c in sel] if (s.get("indep") and not const) or const else [sel]
+        new = {}
+        for grp in groups:
+            if const:
+                rec = [None, s["value"], True, None, None]
             else:
-                self.par[par][c] = [g, v, False]
+                free = [self.par[par][c] for c in grp if not self.par[par][c][2]]
+                lo = min((r[3] for r in free), default=self.bounds[par][0])
+                hi = max((r[4] for r in free), default=self.bounds[par][1])
+                if s.get("lower") is not None:
+                    lo = s["lower"]
+                if s.get("upper") is not None:
+                    hi = s["upper"]
+                if lo > hi:
+                    return False               # nothing at all is assigned
+                rec = [None, min(max(s["value"], lo), hi), False, lo, hi]
+            new[tuple(grp)] = rec
+        self.touched.add(par)
+        tied = self._new()
+        for grp, rec in new.items():
+            g = tied if (not const and not s.get("indep")) else None
+            for c in grp:
+                self.par[par][c] = [g if g is not None else self._new(), rec[1], rec[2],
+                                    rec[3] if rec[3] is not None else self.bounds[par][0],
+                                    rec[4] if rec[4] is not None else self.bounds[par][1]]
+        return True
 
     def after_calc(self, lf):
         import numpy
 
         if "bprobs" in lf.get_param_names():
             self.other["bprobs"] = numpy.array(lf.get_param_value("bprobs"), dtype=float)
+        for name in hidden_partitions(lf):
+            self.hidden[name] = numpy.array(lf.get_param_value(name), dtype=float)
         for par, d in self.par.items():
             for c, rec in d.items():
                 if not rec[2]:
@@ -414,16 +454,19 @@ class Settings:
             apply_setting(lf, self.other["mprobs"])
         if "bprobs" in self.other:
             lf.set_param_rule("bprobs", init=self.other["bprobs"].copy())
+        for name, v in self.hidden.items():
+            lf.set_param_rule(name, init=v.copy())
         for par in sorted(self.touched):
             groups = {}
             for c in self.par[par]:
-                g, v, k = self.par[par][c]
-                groups.setdefault(g, [[], v, k])[0].append(c)
+                g, v, k, lo, hi = self.par[par][c]
+                groups.setdefault(g, [[], v, k, lo, hi])[0].append(c)
             for g in sorted(groups):
-                cells, v, k = groups[g]
+                cells, v, k, lo, hi = groups[g]
                 E = sorted({c[0] for c in cells if c[0] is not None}) or None
                 B = sorted({c[1] for c in cells if c[1] is not None}) or None
-                apply_setting(lf, dict(what="par", par=par, edges=E, bins=B, value=v, const=k, indep=False))
+                apply_setting(lf, dict(what="par", par=par, edges=E, bins=B, value=v, const=k, indep=False,
+                                       lower=None if k else lo, upper=None if k else hi))
         return lf
 
 
@@ -461,9 +504,21 @@ def run_lf(case):
     tolerant = bool(case.get("tolerant"))     # settings may be rejected (inadmissible combination); the caller catches
     rejected = [0]
 
-    def apply(s):
+    mismatch = []
+
+    def apply(s, accepted=True):
         if not tolerant:
-            return apply_setting(lf, s)
+            # a rule refused with ValueError (incompatible bounds in one of its scopes): the caller carries on
+            try:
+                apply_setting(lf, s)
+                raised = False
+            except ValueError as e:
+                if "Bounds" not in str(e):
+                    raise
+                raised = True
+            if raised == accepted:
+                mismatch.append([s, "raised" if raised else "accepted"])
+            return
         try:
             apply_setting(lf, s)
         except Exception as e:  # noqa: BLE001
@@ -485,6 +540,8 @@ def run_lf(case):
                         dict(rejected=rejected[0]), None, {}])
             return
         fr = st.build(spec)
+        if mismatch:
+            extra = dict(extra or {}, rejection_mismatch=list(mismatch))
         out.append([tag, float(lf.get_log_likelihood()), float(fr.get_log_likelihood()), int(lf.get_num_free_params()),
                     int(fr.get_num_free_params()), extra, roundtrip(spec, lf, st), scope_tables(lf)])
 
@@ -492,15 +549,27 @@ def run_lf(case):
     for o in ops:
         kind = o["op"]
         if kind == "set":
-            st.track(o["s"])          # the leaf assignment is made before the propagation that may reject it
-            apply(o["s"])
-            record("set:" + o["s"]["what"])
+            ok = st.track(o["s"])     # the leaf assignment is made before the propagation that may reject it
+            apply(o["s"], ok)
+            record("set:" + o["s"]["what"] + ("" if ok else ":rejected"))
+        elif kind == "refresh":
+            lf.make_calculator()      # calls update() on every definition
+            record("refresh")
+        elif kind == "optimise":
+            lc = lf.optimise(max_evaluations=int(o["evals"]), local=True, show_progress=False, limit_action="ignore",
+                             return_calculator=True)
+            wb = abs(float(lf.get_log_likelihood()) - float(lc.testfunction())) / max(1.0, abs(float(lc.testfunction())))
+            first = float(lf.get_log_likelihood())
+            lf.make_calculator()
+            rr = abs(float(lf.get_log_likelihood()) - first) / max(1.0, abs(first))
+            st.after_calc(lf)
+            record("optimise", dict(worst=0.0, nsteps=0, nopt=len(lc.opt_pars), writeback=wb, reread=rr))
         elif kind == "postponed":
             try:
                 with lf.updates_postponed():
                     for s in o["body"]:
-                        st.track(s)
-                        apply(s)
+                        ok = st.track(s)
+                        apply(s, ok)
                     if o["raises"]:
                         raise Boom()
             except Boom:
@@ -565,8 +634,15 @@ def run_lf(case):
                         if err > worst:
                             worst, detail = err, [what, how, float(a), float(b)]
                 lf.update_from_calculator(calc)
+                # the value the function reports must be the calculator's at the written-back vector, and stay put
+                wb = abs(float(lf.get_log_likelihood()) - float(calc.testfunction())) / max(1.0, abs(float(calc.testfunction())))
+                first = float(lf.get_log_likelihood())
+                lf.make_calculator()
+                rr = abs(float(lf.get_log_likelihood()) - first) / max(1.0, abs(first))
                 st.after_calc(lf)
-            record("calc", dict(worst=worst, detail=detail, nsteps=nsteps, nopt=n))
+            else:
+                wb = rr = 0.0
+            record("calc", dict(worst=worst, detail=detail, nsteps=nsteps, nopt=n, writeback=wb, reread=rr))
     return out
 
 
